@@ -424,3 +424,29 @@ Proof.
   apply (k_collect_eq (EM.a_K A) pssm sq (SM.swrap st) v); auto.
   pose proof (abc_K A HA). unfold wf_input. repeat split; auto; lia.
 Qed.
+
+(* ... and Scanner::max after k calls of next(), on the kernels *)
+Lemma text_to_max_kernels (A : EM.abc) (p : EI.pipeline) (junk : nat -> EM.sym) (text : list byte)
+      (be : SA.backend) (old : SM.sseq) (pssm : list (list F32.t)) (am : arm) (pads : nat -> list Z)
+      (thr : F32.t) (B k : nat) :
+  A = GA.dna \/ A = GA.protein -> EM.a_K A <= 16 ->
+  SS.wf_matrix 32 (SM.mat old) ->
+  Forall (LMEncode.EncodeProofs.in_abc A) text ->
+  1 <= length pssm -> Forall (fun row : list F32.t => length row = EM.a_K A) pssm ->
+  LMScan.DiscBridge.finite_nonwild (EM.a_K A) pssm ->
+  (forall i, 16 <= EM.a_K A + length (pads i)) ->
+  e2e_max_kernels A p junk text be old pssm am pads thr B k = e2e_max_after A 32 p junk text be old pssm am thr B k.
+Proof.
+  intros HA HK16 Hold Htext HM Hrows Hfin Hpads.
+  assert (Hbe : SA.backend_typed 32 be = true) by (destruct be; reflexivity).
+  destruct (text_prepared A 32 p junk text be old pssm HA ltac:(lia) Hbe Hold Htext HM)
+    as (sq & st & Henc & Hlen & Hnth & Hp & HS & Hw & Hsym).
+  unfold e2e_max_kernels, e2e_max_after. rewrite Hp. cbn [rbind snd].
+  assert (Hge : Forall (fun row : list F32.t => EM.a_K A <= length row) pssm).
+  { eapply Forall_impl; [|exact Hrows]. intros r ->. lia. }
+  destruct (to_discrete_total (EM.a_K A) pssm (abc_K A HA) Hge Hfin) as (dm & Hd).
+  destruct (c_env_ok (EM.a_K A) 32 pssm sq (SM.swrap st) dm Hd) as (v & Hv & _).
+  rewrite (e_env_c_env (EM.a_K A) 32 pssm sq st HS), Hv. cbn [rbind].
+  apply (k_max_after_eq (EM.a_K A) pssm sq (SM.swrap st) v); auto.
+  pose proof (abc_K A HA). unfold wf_input. repeat split; auto; lia.
+Qed.
